@@ -143,10 +143,23 @@ def c18_families(rng, tier):
     idx = list(range(0, 70001)) + [(1 << 32) - 1, 1 << 32, (1 << 32) + 1, 1 << 63, (1 << 64) - 1, (1 << 64) - 2]
     for k in (8, 16, 24, 32, 40, 48, 56):   # an in-range low part under every byte boundary (truncating casts)
         idx += [(1 << k) + j for j in (0, 1, 51, 52, 255)]
+    # wrap-around candidates: an index whose quotient by a small divisor (1, suit size, deck size, ...) is a multiple of 2^8 / 2^16 /
+    # 2^32 plus something small, so that an index split into parts with a truncating cast lands back inside the deck
+    wrap = set()
+    for d in (1, 2, 4, 13, 26, 52):
+        for w_ in (8, 16, 32):
+            for k in (1, 2, 3, 5, (1 << (63 - w_)) // d):
+                for q in range(0, 6):
+                    for j in (0, 1, 7, 12, 13, 51, 52):
+                        v = d * ((k << w_) + q) + j
+                        if v < (1 << 64):
+                            wrap.add(v)
+    idx += sorted(wrap)
     n = 2000 if tier == "quick" else 200000
     idx += [rng.next() >> rng.below(64) for _ in range(n)]
     return [fam("deck_get", ["deckget %d" % i for i in idx],
-                "Deck::get on EVERY index 0..=70000 (all u8/u16 truncation classes), 2^k + small offsets for every byte boundary, "
+                "Deck::get on EVERY index 0..=70000 (all u8/u16 truncation classes), 2^k + small offsets for every byte boundary, indices whose "
+                "quotient by 1/2/4/13/26/52 wraps a u8/u16/u32 back into the deck, "
                 "usize::MAX and seeded random usize of every magnitude; non-trivial = distinct index",
                 categories={"in_range": sum(1 for i in idx if i < 52), "past_end": sum(1 for i in idx if i >= 52)})]
 
@@ -679,10 +692,10 @@ def c07_families(rng, tier):
         fam("hrkey_projection", [l.replace("hrcmpp", "hrkey", 1) for l in pairs[:2000] + rnd[:2000]],
             "the projection the all-pairs sweep uses, on model and implementation", pinned=True),
         fam_sweep("all_value_pairs", "hrkey", 2, 0, "1 1 1", "C07_order + C07_eq + C07_operators + C07_antisymmetric",
-                  "ALL 65,536 x 65,536 ordered pairs of converted values%s: cmp is what the property fixes (lower valid value Greater, "
-                  "invalid below valid, two invalid ranks Equal iff same value and antisymmetric); ==, !=, partial_cmp, <, <=, >, >= agree "
-                  "with cmp" % ("" if tier == "thorough" else " (1 of every 64, seeded offset)"),
-                  stride=1 if tier == "thorough" else 64, offset=rng.below(64), alphabet="u16_ordered"),
+                  "ALL 65,536 x 65,536 = 4,294,967,296 ordered pairs of converted values, both build profiles: cmp is what the property fixes "
+                  "(lower valid value Greater, invalid below valid, two invalid ranks Equal iff same value and antisymmetric); ==, !=, "
+                  "partial_cmp, <, <=, >, >= agree with cmp (each value is converted once; a pair whose three bits are not all true is "
+                  "re-run as an ordinary case)", alphabet="u16_ordered", profiles=["release", "chk"]),
         fam("invalid_order_direction", direction, "cmp itself on pairs of invalid values (BEYOND the property, which does not fix the order among "
             "invalid ranks: records whether the model's choice, higher value sorts lower, is still the code's)", beyond=True),
     ]
@@ -761,7 +774,27 @@ def c11_families(rng, tier):
             h = card_or_blank_multiset(rng, k, 15)
             cats["card_or_blank_repeats"] += 1
         rnd.append(line("sort %d" % k, h))
+    clustered = []
+    for j in range(6000 if tier == "quick" else 100000):
+        k = 2 + j % 6
+        base = rng.choice(DECK) if rng.below(3) == 0 else rng.next() & 0xFFFFFFFF
+        kind = rng.below(5)
+        if kind == 0:      # single-bit neighbours of one word (and the word itself, repeated)
+            h = [base ^ (1 << rng.below(32)) if rng.below(3) else base for _ in range(k)]
+        elif kind == 1:    # same upper 20 bits
+            h = [(base & 0xFFFFF000) | rng.below(1 << 12) for _ in range(k)]
+        elif kind == 2:    # same upper 16 bits
+            h = [(base & 0xFFFF0000) | rng.below(1 << 16) for _ in range(k)]
+        elif kind == 3:    # differing inside one byte
+            sh = 8 * rng.below(4)
+            h = [base ^ (rng.below(256) << sh) for _ in range(k)]
+        else:              # same lower 16 bits
+            h = [(base & 0xFFFF) | (rng.below(1 << 16) << 16) for _ in range(k)]
+        clustered.append(line("sort %d" % k, h))
     return [
+        fam("sort_clustered", clustered, "hands whose words are close to one another (single-bit neighbours of one word, words sharing their upper "
+            "20 / upper 16 / lower 16 bits, words differing inside one byte; the base is a card or a random word): a sort key or comparator that "
+            "ignores or misorders some bits shows only on such hands", pinned=True),
         fam("sort_multisets", ms, "sizes 2..7: ALL multisets over a 7-word alphabet (blank, 1, two deuces, ace of spades, a flagged ace, "
             "0xFFFFFFFF), shuffled: sort() and sort_in_place()", pinned=True),
         fam("sort_seeded", rnd, "seeded hands of arbitrary u32 words / distinct cards / cards and blanks with repeats", categories=cats, pinned=True),
@@ -799,6 +832,26 @@ def count_tokens(s):
             inside = True
             n += 1
     return n
+
+
+def minimal_texts():
+    out = []
+    singles = [ord(c) for c in "AKQ2x7_s"]
+    cards = [[ord("A"), ord("S")], [ord("k"), 0x2665], [ord("2"), ord("c")], [ord("T"), 0x2662], [ord("9"), ord("D")], [ord("q"), ord("h")],
+             [ord("0"), 0x2660]]
+    for n in range(2, 8):
+        for nt in (n, n - 1):
+            for variant, toks in (("single", [[singles[(j + n) % len(singles)]] for j in range(nt)]), ("cards", [cards[j % len(cards)] for j in range(nt)])):
+                for si, sep in enumerate(WS_CHARS):
+                    for lead, trail in ((0, 0), (1, 0), (0, 1), (1, 1)):
+                        if variant == "cards" and si % 4 != (lead + 2 * trail):
+                            continue
+                        s = [sep] * lead
+                        for j, t in enumerate(toks):
+                            s += t + ([sep] if j + 1 < len(toks) else [])
+                        s += [WS_CHARS[(si + 1) % len(WS_CHARS)]] * trail
+                        out.append("parsehand %d %s" % (n, " ".join(str(c) for c in s)))
+    return out
 
 
 def c12_families(rng, tier):
@@ -867,6 +920,8 @@ def c12_families(rng, tier):
             "1-4 byte characters, U+0000, U+10FFFF, U+FE0F x 5 tails; single-character and empty tokens", pinned=True),
         fam("hand_texts", hands, "hand parsers of sizes 2..7 (and BinaryCard::from_index, parse::five_from_index) on 0..9 tokens separated by "
             "random Unicode whitespace runs; tokens are cards, junk, or cards with tails", categories=cats, pinned=True),
+        fam("minimal_texts", minimal_texts(), "hand parsers of sizes 2..7 on the SHORTEST texts: n or n-1 one-character or two-character tokens, "
+            "one separator between tokens (each whitespace character in turn), with and without leading / trailing whitespace", pinned=True),
         fam("hand_texts_extra_tokens", extra, "hand parsers given MORE tokens than slots (beyond the property, which fixes too few and exactly "
             "enough: the model, like the code, ignores the rest)", beyond=True),
         fam("arbitrary_strings", arb, "seeded arbitrary scalar-value strings through the card, hand and bit-set parsers", pinned=True),
@@ -959,6 +1014,8 @@ def c15_families(rng, tier):
         fam("peel_histories", peel, "peel to exhaustion + 3 extra peels on structured sets (empty, full, all 64 bits, singletons, rank and suit "
             "groups, overflow bits, full minus one) and seeded u64 at four densities", pinned=True),
         fam("set_ops", ops, "fold_in, has, number_of_cards, is_single_card, is_valid on set pairs", pinned=True),
+        fam("set_ops_lane_unions", ["bcops %d %d" % (v, (v * 0x9E3779B97F4A7C15 + 1) & ((1 << 64) - 1)) for v in lane_sets(rng, tier == "thorough")],
+            "the same on unions of whole bytes (+ extra bits; thorough: all unions of whole nibbles): dense regular sets", profiles=["release"], pinned=True),
         fam("from_hands", hands, "from_two .. from_seven over {52 cards, blank} with repetition", pinned=True),
         fam("from_text", texts, "BinaryCard::from_index on token texts", pinned=True),
         fam("bcsetp_projection", [l.replace("bcfrom ", "bcsetp ", 1) for l in hands[:3000]], "the projection the sweeps use, on model and "
@@ -968,6 +1025,30 @@ def c15_families(rng, tier):
                "non-empty) and peeling lists them in deck order, then blank", sizes=(2, 3, 4, 5, 6, 7), alphabet="deckblank", name="bcsetp",
                thorough_stride={7: 8},
                quick_strides={2: (1, 1, 1), 3: (1, 1, 1), 4: (1, 1, 1), 5: (1, 4, 4), 6: (4, 16, 16), 7: (32, 128, 128)})
+
+
+def lane_sets(rng, nibbles):
+    """unions of whole bytes (all 256), each with one extra bit (64) and a few two-extra-bit variants; optionally all 65,536 unions of
+    whole nibbles: where hand-written parallel bit counts (lane sums, masks) go wrong"""
+    out = []
+    for m in range(256):
+        v = 0
+        for b in range(8):
+            if m >> b & 1:
+                v |= 0xFF << (8 * b)
+        out.append(v)
+        for e in range(64):
+            out.append(v | (1 << e))
+        for _ in range(12):
+            out.append(v | (1 << rng.below(64)) | (1 << rng.below(64)))
+    if nibbles:
+        for m in range(1 << 16):
+            v = 0
+            for b in range(16):
+                if m >> b & 1:
+                    v |= 0xF << (4 * b)
+            out.append(v)
+    return out
 
 
 def c16_families(rng, tier):
@@ -982,15 +1063,40 @@ def c16_families(rng, tier):
         fam("two_cards_in_complement", ["twofrombc %d" % (((1 << 64) - 1) ^ ((1 << a) | (1 << b))) for a in range(64) for b in range(a)],
             "the complements of all two-bit values (62 bits set)", exhaustive=True, profiles=["release"], pinned=True),
         fam("seeded_popcounts", ["twofrombc %d" % v for v in rnd], "seeded u64 of every population count 0..64", pinned=True),
+        fam("lane_unions", ["twofrombc %d" % v for v in lane_sets(rng, True)], "unions of whole bytes (all 256, each also with every single extra bit "
+            "and some pairs of extra bits) and all 65,536 unions of whole nibbles", profiles=["release"], pinned=True),
     ]
 
 
 # ---- C17 / C19 / C20 ------------------------------------------------------------------------------------------
+def two_texts(rng):
+    out = []
+    rank_ch = "AKQJT98765432"
+    for j in range(2500):
+        a, b = rng.below(52), rng.below(52)
+        if a == b:
+            continue
+        toks = []
+        for c in (a, b):
+            r, s_ = 12 - (c % 13), 3 - (c // 13)
+            rc = rank_ch[12 - r]
+            rc = rc.lower() if rng.below(4) == 0 else rc
+            sc = rng.choice([ord("SHDC"[3 - s_]), ord("shdc"[3 - s_]), [0x2663, 0x2666, 0x2665, 0x2660][s_], [0x2667, 0x2662, 0x2661, 0x2664][s_]])
+            toks.append([ord(rc), sc])
+        def ws_run(lo):
+            return [rng.choice(WS_CHARS) for _ in range(lo + (rng.below(3) if rng.below(2) else 0))]
+        s = ws_run(0) + toks[0] + ws_run(1) + toks[1] + ws_run(0)
+        out.append("twotext " + " ".join(str(x) for x in s))
+    return out
+
+
 def c17_families(rng, tier):
     return [
         fam_cmd("all_pairs", ["pairs", "--op", "two"], "ALL 52 x 51 ordered pairs of distinct cards: chen_formula, get_gap, high_card, is_connector, "
                 "is_pocket_pair, is_suited, is_suited_connector", profiles=["release", "chk"], pinned=True),
         fam("card_points", ["acc %d" % w for w in DECK + [0]], "per-card Chen points (and all accessors) on the 52 cards and blank", exhaustive=True, pinned=True),
+        fam("pairs_from_text", two_texts(rng), "two distinct cards given as TEXT through Two::try_from (rank + suit letter or glyph, either case; "
+            "leading / trailing / repeated Unicode whitespace): the same helpers on the parsed hand", pinned=True),
         fam("shifted_pairs", [line("two", [shift_word(a), shift_word(b)]) for a in DECK[::3] for b in DECK[1::5] if a != b],
             "suit-shifted pairs", pinned=True),
     ]
